@@ -516,6 +516,7 @@ def _phase_write(v, sub, ctx):
         ctx.fail("harness", "harness_error:leaf_vanished", f"{sub}", case=sub)
         return 0
     snap = _snap(watch, wexcl)
+    rsnap = _snap(robj, v.share_res) if sub["phase"] == "w_res" else None
     tb = target.tobytes()
     if not perturb(target):
         ctx.count("unwritable_leaf")
@@ -528,7 +529,28 @@ def _phase_write(v, sub, ctx):
     if ch:
         ctx.fail(sub["op"], "alias", f"{sub['var']}: write to {leaf} changed {ch}", variant=direction,
                  case=dict(sub, changed=_plain(ch)))
+    if rsnap is not None and not v.share_ok:
+        _later_result_check(v, sub, ctx, rsnap, leaf)
     return 1
+
+
+def _later_result_check(v, sub, ctx, rsnap, leaf):
+    """History op; write into the result; op again on fresh operands: the later result must equal the first one as it
+    was before the write (results of different calls must not share hidden state such as a cached array)."""
+    ops2, _b2, res2, _e2, exc2 = _execute(v)
+    if exc2 is not None:
+        return
+    s2 = _snap(_result_obj(v, ops2, res2), v.share_res)
+    ctx.tick()
+    if s2 == rsnap:
+        return
+    ops3, _b3, res3, _e3, exc3 = _execute(v)
+    if exc3 is not None or _snap(_result_obj(v, ops3, res3), v.share_res) != s2:
+        ctx.count("nondeterministic_op_skipped_later_result_check")
+        return
+    changed = sorted(k for k in set(rsnap[0]) | set(s2[0]) if rsnap[0].get(k) != s2[0].get(k))
+    ctx.fail(sub["op"], "alias", f"{sub['var']}: after a write to {leaf} of an earlier result, a later call returns a "
+             f"different result: {changed[:4]}", variant="result->later_result", case=dict(sub, changed=_plain(changed)))
 
 
 # ---------------------------------------------------------------------------------------------
